@@ -112,6 +112,7 @@ def _bf_chunk(args):
             df = pd.DataFrame({'volt_rise': np.array(R, dtype=float), 'volt_decay': np.array(D, dtype=float),
                                'period': np.array(P, dtype=int), 'volt_amp': (np.array(R, dtype=float) + np.array(D, dtype=float)) / 2})
             df['sample_peak' if peak else 'sample_trough'] = np.arange(nr)
+            df = pj.relabel(df, ti + peak)          # row labels are not part of the abstract table
             try:
                 e = [1]
                 for x_ in np.asarray(compute_amp_fraction(df)):
@@ -156,7 +157,7 @@ def _det_chunk(args):
         cols = {f: [CODE_VAL[PROFILES[p][j]] for p in prof] for j, f in enumerate(FEAT4)}
         for m in range(nr + 2):
             try:
-                df = detect_bursts_cycles(pd.DataFrame(cols), amp_fraction_threshold=THR, amp_consistency_threshold=THR,
+                df = detect_bursts_cycles(pj.relabel(pd.DataFrame(cols), ti + m), amp_fraction_threshold=THR, amp_consistency_threshold=THR,
                                           period_consistency_threshold=THR, monotonicity_threshold=THR, min_n_cycles=m)
                 lab = np.asarray(df['is_burst'].values, dtype=bool)
                 out.append(int(sum(1 << i for i in range(len(lab)) if lab[i])) if len(lab) == nr else -2)
@@ -195,7 +196,7 @@ def _amp_chunk(args):
                     out.extend([0] * (len(AMP_THR) * (max_m + 1)))
                     fout.extend([0] * ns)
                     continue
-                df = pd.DataFrame({'sample_last_trough': sides[:-1], 'sample_next_trough': sides[1:], 'sample_peak': sides[:-1]})
+                df = pj.relabel(pd.DataFrame({'sample_last_trough': sides[:-1], 'sample_next_trough': sides[1:], 'sample_peak': sides[:-1]}), mm + sm)
                 try:
                     fr = compute_burst_fraction(df, np.zeros(ns), 100, (8, 12))
                     frp = [pj.rat(x, D=1000) for x in fr]
@@ -210,7 +211,7 @@ def _amp_chunk(args):
                             out.append(-1)
                             continue
                         try:
-                            d2 = detect_bursts_amp(pd.DataFrame({'burst_fraction': list(fr)}), burst_fraction_threshold=thr, min_n_cycles=m)
+                            d2 = detect_bursts_amp(pj.relabel(pd.DataFrame({'burst_fraction': list(fr)}), sm + m), burst_fraction_threshold=thr, min_n_cycles=m)
                             lab = np.asarray(d2['is_burst'].values, dtype=bool)
                             out.append(int(sum(1 << i for i in range(len(lab)) if lab[i])))
                         except Exception:
@@ -265,6 +266,7 @@ def _edges_chunk(args):
                                            'volt_amp': (np.array(R, dtype=float) + np.array(D, dtype=float)) / 2,
                                            'amp_fraction': [0.1 if b else 0.9 for b in B], 'monotonicity': [0.9] * nr})
                         df['sample_peak' if peak else 'sample_trough'] = np.arange(nr)
+                        df = pj.relabel(df, ti_ + m + peak)
                         df['amp_consistency'] = compute_amp_consistency(df)
                         df['period_consistency'] = compute_period_consistency(df)
                         thr = {'amp_fraction_threshold': 0.5, 'amp_consistency_threshold': t, 'period_consistency_threshold': t,
